@@ -347,6 +347,7 @@ type c13Handle struct {
 	live         bool
 	materialized bool // some holder unpinned it dirty (so it reaches the disk before its frame is reused)
 	pins         map[int]*c13Pin
+	late         bool // skip-list style removal in two steps: marked + unpinned, DeallocatePage(id,false) still to come
 	// run time
 	pid       int32
 	data      *[c13PageSize]byte
@@ -711,6 +712,42 @@ func (s *c13State) step(op string) (enabled bool) {
 		}
 		delete(h.pins, u)
 		h.live = false
+	case "dealloc_sl1": // first half of SkipList.Remove: SetIsDeallocated(true) on the pinned page, unpin. The page is gone for the model;
+		// its id may be handed out again once the frame is evicted - before the late DeallocatePage(id,false) of step 2 arrives
+		if h == nil || !h.live || h.pins[u] == nil || s.otherPins(h, u) > 0 {
+			return false
+		}
+		s.tags["dealloc-skiplist-style"] = true
+		s.tags["dealloc-skiplist-two-steps"] = true
+		if !dry {
+			s.checkPin(h, u, true)
+			if s.viol != nil {
+				return true
+			}
+			pg := h.pins[u].pg
+			if !s.guarded("skip-list style removal, step 1", func() {
+				pg.SetIsDeallocated(true)
+				s.eng.bpm.UnpinPage(types.PageID(h.pid), true)
+			}) {
+				return true
+			}
+			s.afterCall("SetIsDeallocated+UnpinPage", false)
+			s.kill(h)
+		}
+		delete(h.pins, u)
+		h.live = false
+		h.late = true
+	case "dealloc_sl2": // second half: the remover's DeallocatePage(id,false), possibly long after the id got a new owner
+		if h == nil || !h.late {
+			return false
+		}
+		if !dry {
+			if !s.guarded("late DeallocatePage(id,false)", func() { s.eng.bpm.DeallocatePage(types.PageID(h.pid), false) }) {
+				return true
+			}
+			s.afterCall("late DeallocatePage(id,false)", false)
+		}
+		h.late = false
 	case "dealloc_hj": // hash-join style: unpin, DeallocatePage(id,true)
 		if h == nil || !h.live || h.pins[u] == nil {
 			return false
@@ -1307,7 +1344,8 @@ func c13Gen(env *core.Env, idx int) *C13Case {
 				switch class {
 				case "skiplist":
 					if sole {
-						cs = append(cs, cand{9, fmt.Sprintf("%d dealloc_sl %d", u, id)})
+						cs = append(cs, cand{6, fmt.Sprintf("%d dealloc_sl %d", u, id)})
+						cs = append(cs, cand{4, fmt.Sprintf("%d dealloc_sl1 %d", u, id)})
 					}
 				case "hashjoin":
 					if sole {
@@ -1316,10 +1354,19 @@ func c13Gen(env *core.Env, idx int) *C13Case {
 					}
 				case "hostile-sl":
 					cs = append(cs, cand{7, fmt.Sprintf("%d dealloc_sl %d", u, id)})
+					if sole {
+						cs = append(cs, cand{3, fmt.Sprintf("%d dealloc_sl1 %d", u, id)})
+					}
 				case "hostile-nw":
 					cs = append(cs, cand{4, fmt.Sprintf("%d dealloc_sl %d", u, id)})
 					cs = append(cs, cand{4, fmt.Sprintf("%d dealloc_hj %d", u, id)})
 				}
+			}
+		}
+		for _, id := range deadH {
+			if s.h[id].late {
+				cs = append(cs, cand{2, fmt.Sprintf("%d dealloc_sl2 %d", u, id)})
+				break
 			}
 		}
 		if len(liveH) > 0 {
